@@ -313,6 +313,8 @@ const EXPR_PAYLOADS: &[(&str, &str)] = &[
     ("postinc", "x++"),
     ("require", "require(x > 0 && y > 0, \"short\")"),
     ("divmul", "(x / y) * 3"),
+    ("addrzero", "a0[0] == address(0)"),
+    ("length", "x < a0.length"),
 ];
 
 const STMT_PAYLOADS: &[(&str, &str)] = &[("selfdestruct", "selfdestruct(payable(address(0)));")];
